@@ -16,7 +16,8 @@
 
     Not modelled (behaviour of the h2 / rustls crates): HPACK, flow control, frame scheduling, TLS
     records, ALPN negotiation itself.  [h2_refuses] transcribes the one check of the h2 crate that
-    decides whether a response head is sent at all (h2 0.4 proto/streams/send.rs [check_headers]).
+    decides whether a response head is sent at all (h2 0.4 proto/streams/send.rs [check_headers]);
+    the repaired HTTP/2 arm of [send_response] removes the headers that check looks for ([h2_strip]).
     Definitions only; proofs in Proofs/ProtocolsProofs.v. *)
 From KV Require Export Bytes RustInt Range CacheControl Cache.
 Open Scope N_scope.
@@ -127,6 +128,15 @@ Section Send.
     hm_has H_CONN h || hm_has H_TENC h || hm_has H_UPGRADE h || hm_has H_KA h || hm_has H_PROXYC h
     || match assoc H_TE h with Some v => negb (beq v V_TRAILERS) | None => false end.
 
+  (** repaired [send_response], HTTP/2 arm: [remove_connection_specific_headers] before the head is given to h2
+      (before the repair the head went to h2 as it was, and a response with such a header was never sent) *)
+  Definition h2_strip (h : headers) : headers :=
+    let h1 := hm_remove H_UPGRADE (hm_remove H_TENC (hm_remove H_PROXYC (hm_remove H_KA (hm_remove H_CONN h)))) in
+    match assoc H_TE h1 with
+    | Some v => if beq v V_TRAILERS then h1 else hm_remove H_TE h1
+    | None => h1
+    end.
+
   Definition method_has_response_body (m : N) : bool :=
     (m =? M_GET) || (m =? M_POST) || (m =? M_OPTIONS).    (* + DELETE, CONNECT, PATCH: all [M_OTHER], where the disjunction below is true anyway *)
   (** [!body.is_empty() && (method_has_response_body(m) || (!body.is_empty() && m != HEAD))] *)
@@ -146,12 +156,15 @@ Section Send.
     let body := if sends_body m (rs_body r1) then rs_body r1 else [] in
     match p with
     | H1 => Ok (WResp (mkResp v (rs_status r1) (h1_connection h2) body))
-    | H2 => if h2_refuses h2 then Ok WRefused else Ok (WResp (mkResp v (rs_status r1) h2 body))
+    | H2 =>
+        let h3 := h2_strip h2 in
+        if h2_refuses h3 then Ok WRefused else Ok (WResp (mkResp v (rs_status r1) h3 body))
     end).
 
   (** ---- what the property compares: everything except the version and the connection-level headers ---- *)
   Definition hop (n : bytes) : bool :=
-    beq n H_CONN || beq n H_KA || beq n H_CL || beq n H_ALT || beq n H_TENC.
+    beq n H_CONN || beq n H_KA || beq n H_PROXYC || beq n H_TENC || beq n H_UPGRADE || beq n H_TE
+    || beq n H_CL || beq n H_ALT.
   Definition strip (h : headers) : headers := filter (fun kv => negb (hop (fst kv))) h.
   Definition normalise (w : wreply) : wreply :=
     match w with
